@@ -343,11 +343,7 @@ def run(chk: Check):
         if c['single'] and c['vox'] and c['vox'] < minv and o['write'] == 'ok':
             pred = 'too small an offset was accepted'
         if pred:
-            if (pred.startswith('reload failed: err ext_content') and c['exts'] and c['single']
-                    and c['vox'] >= minv + 16):
-                chk.known('S-C11a', 'single-file image with extensions and a user vox_offset leaving >= 16 spare '
-                          'bytes cannot be re-loaded (zero fill parsed as an extension header); loud HeaderDataError')
-            else:
+            if True:
                 chk.violation('property_violation', case=case_desc, impl_output={k: (v.hex() if isinstance(v, bytes) else v) for k, v in o.items()},
                               model_output=mw[:200], predicate=pred)
         if dis:
